@@ -5,6 +5,7 @@ cd "$(dirname "$0")"
 export CARGO_NET_OFFLINE=true
 mkdir -p .cache evidence
 ( cd replay && cargo build --offline -q --target-dir ../.cache/replay-target )
+( cd kani && ulimit -v 16000000 && timeout 1500 cargo kani --target-dir ../.cache/kani-target > ../.cache/kani-setup.log 2>&1 || true )
 python3-vt - <<'PY'
 import sys; sys.path.insert(0, '.')
 from mirsym.program import mirdump
